@@ -69,6 +69,8 @@ class Scratch:
             os.makedirs(os.path.join(self.repo, rel), exist_ok=True)
             for f in files:
                 if f.endswith(".overlay"):
+                    # replaces the file of the same name in the scratch copy only (alsa cgo stub)
+                    shutil.copy2(os.path.join(d, f), os.path.join(self.repo, rel, f[:-len(".overlay")]))
                     continue
                 shutil.copy2(os.path.join(d, f), os.path.join(self.repo, rel, f))
 
